@@ -202,24 +202,35 @@ def gen_cases(ctx):
     # the ingest path
     n_ing = 170 if quick else 2500
     for i in range(n_ing):
-        addr_kind = rng.choice(["absent", "v4", "v4", "mapped", "v6", "v6", "bad"])
+        wild = i % 2 == 1          # every other message is mostly valid, the rest mixes every malformation
+        if wild:
+            addr_kind = rng.choice(["absent", "v4", "v4", "mapped", "v6", "v6", "bad"])
+        else:
+            addr_kind = rng.choice(["absent", "v4", "v4", "v4", "mapped", "mapped", "v6", "v6"])
         addr = {"absent": None, "v4": rng.choice(v4), "mapped": rng.choice(mapped), "v6": rng.choice(v6), "bad": rng.choice(bad)}[addr_kind]
         has_rr = rng.random() < 0.6
         ov4 = ov6 = odst = None
         if has_rr:
             if rng.random() < 0.5:
-                ov4 = rng.choice([0, 1, 0x01020304, 0xFFFFFFFF, rng.getrandbits(32)])
+                ov4 = rng.choice([0, 1, 0x01020304, 0xFFFFFFFF, rng.getrandbits(32)]) if wild else rng.choice([0x01020304, rng.getrandbits(32) | 1])
             if rng.random() < 0.6:
-                ov6 = rng.choice(v6 + v6 + mapped + bad)
+                ov6 = rng.choice(v6 + v6 + mapped + bad) if wild else rng.choice(v6)
             if rng.random() < 0.5:
-                odst = rng.choice([0, 443, 8443, 65535, 65536, 70000, 2 ** 32 - 1, rng.randrange(65536)])
-        cases.append({
-            "kind": "ingest", "en4": rng.random() < 0.85, "en6": rng.random() < 0.85, "addr": hx(addr),
-            "v4": rng.choice([True, True, True, False, None]), "v6": rng.choice([True, True, True, False, None]),
-            "transport": rng.choice([1, 1, 2, 3, 4, 4, 1, 0, 9]), "gen": rng.choice([1, 1, 2, 2, 3, 4, 5, 5, 77]),
-            "libver": rng.choice([0, 1, 2, 3, 3, 4, 4, 5]), "secret": rng.getrandbits(256).to_bytes(32, "big").hex(),
-            "randport": rng.choice([None, True, True, False]), "has_rr": has_rr, "ov4": ov4, "ov6": hx(ov6), "odst": odst,
-            "source": rng.choice([1, 2, 3, 4, 5, 6]), "subnets": SUBNETS})
+                odst = rng.choice([0, 443, 8443, 65535, 65536, 70000, 2 ** 32 - 1, rng.randrange(65536)]) if wild else rng.choice([443, 8443, rng.randrange(1, 65536)])
+        if wild:
+            flags = {"en4": rng.random() < 0.85, "en6": rng.random() < 0.85,
+                     "v4": rng.choice([True, True, True, False, None]), "v6": rng.choice([True, True, True, False, None]),
+                     "transport": rng.choice([1, 1, 2, 3, 4, 4, 1, 0, 9]), "gen": rng.choice([1, 1, 2, 2, 3, 4, 5, 5, 77]),
+                     "libver": rng.choice([0, 1, 2, 3, 3, 4, 4, 5])}
+        else:
+            flags = {"en4": rng.random() < 0.95, "en6": rng.random() < 0.95,
+                     "v4": rng.random() < 0.9, "v6": rng.random() < 0.9,
+                     "transport": rng.choice([1, 2, 3, 4]), "gen": rng.choice([1, 2, 5, 5]), "libver": rng.choice([2, 3, 3, 4, 5])}
+        c = {"kind": "ingest", "addr": hx(addr), "secret": rng.getrandbits(256).to_bytes(32, "big").hex(),
+             "randport": rng.choice([None, True, True, False]), "has_rr": has_rr, "ov4": ov4, "ov6": hx(ov6), "odst": odst,
+             "source": rng.choice([1, 2, 3, 4, 5, 6]), "subnets": SUBNETS}
+        c.update(flags)
+        cases.append(c)
     return cases
 
 
